@@ -914,8 +914,15 @@ class Runner(object):
             return ctx.report_failure(K_NONINTRO, what, rep)
         if explained and 'enum33' in fl:
             return ctx.report_failure(K_ENUM, what, rep)
-        if explained and max(want['offsets'] + [0]) >= 65535 and got['size'] == want['size'] and got['align'] == want['align'] \
+        # K_OFF16: record, boxed, union or class (ObjectBlob stores no size/alignment, so there is nothing
+        # but the offsets to compare for a class).  Exactly: some field's TRUE offset is >= 65535, every
+        # field below 65535 is stored exactly, every field at or above it is stored modulo 2^16, and
+        # size / alignment (where stored) are right.  A wrong offset below 65535 never gets here.
+        size_align_right = d['d'] == 'object' or (got['size'] == want['size'] and got['align'] == want['align'])
+        if explained and max(want['offsets'] + [0]) >= 65535 and size_align_right \
+                and len(got['offsets']) == len(want['offsets']) \
                 and all(g == (w if w < 65535 else (w % 65536)) for g, w in zip(got['offsets'], want['offsets'])):
+            self.cnt.hit('%s:known:offset>=65535:%s' % (label, d['d']))
             return ctx.report_failure(K_OFF16, what, rep)
         ctx.report_failure('layout:' + key_of(b, d), what, rep)
 
